@@ -111,11 +111,65 @@ def _chunks(seq, n):
 _WORK = None
 
 
+class UnitTimeout(BaseException):
+    pass
+
+
+UNIT_TIMEOUT = float(os.environ.get("VERIF_UNIT_TIMEOUT", "600"))
+
+
+def _alarm(_sig, _frm):
+    raise UnitTimeout()
+
+
 def _run_chunk(chunk):
+    """one chunk of work under a watchdog: library code that never returns (a scanner that stops advancing, a wait on
+    a lock nobody releases) is reported as a violation of termination instead of hanging the check"""
+    import signal
+
+    old = None
+    try:
+        old = signal.signal(signal.SIGALRM, _alarm)
+        signal.setitimer(signal.ITIMER_REAL, UNIT_TIMEOUT)
+    except (ValueError, OSError):  # not the main thread
+        old = None
     try:
         return ("ok", _WORK(chunk))
+    except UnitTimeout:
+        import base64
+        import pickle
+
+        try:
+            blob = base64.b64encode(pickle.dumps(chunk)).decode()
+        except Exception:  # noqa
+            blob = ""
+        return ("ok", {"cov": {"violating_cases": 1}, "outcomes": [], "samples": [], "known": {}, "viol": [{
+            "kind": "harness:timeout", "work": f"{_WORK.__module__}:{_WORK.__name__}", "units": short(repr(chunk), 400), "units_pickle_b64": blob, "limit_s": UNIT_TIMEOUT,
+            "why": f"the implementation did not return within {UNIT_TIMEOUT:.0f} s on these cases (each takes well under a second on the pinned tree): it does not terminate"}]})  # fmt: skip
     except BaseException:  # noqa
         return ("err", traceback.format_exc())
+    finally:
+        if old is not None:
+            signal.setitimer(signal.ITIMER_REAL, 0)
+            signal.signal(signal.SIGALRM, old)
+
+
+def replay_timeout(data):
+    """re-run the recorded chunk under the same watchdog in a forked child -> (reproduced, message)"""
+    import base64
+    import importlib
+    import pickle
+
+    mod, fn = data["work"].split(":")
+    work = getattr(importlib.import_module(mod), fn)
+    chunk = pickle.loads(base64.b64decode(data["units_pickle_b64"]))
+    global _WORK
+    _WORK = work
+    from .xlife import in_child
+
+    r = in_child(lambda: _run_chunk(chunk))
+    timed_out = r[0] == "ok" and any(v.get("kind") == "harness:timeout" for v in r[1].get("viol", []))
+    return timed_out, ("still does not return within the limit" if timed_out else "returns now")
 
 
 def pmap(work, units, chunk=64, jobs=None, inline_ok=True):
@@ -228,7 +282,8 @@ def write_evidence(res: Result, rule: str, exhaustive: bool = True) -> str:
         "repo": REPO,
     }
     path = os.path.join(EVIDENCE_DIR, f"{res.pid}.json")
-    tmp = path + ".tmp"
+    os.makedirs(EVIDENCE_DIR, exist_ok=True)
+    tmp = f"{path}.{os.getpid()}.tmp"
     with open(tmp, "w") as f:
         json.dump(ev, f, indent=1, sort_keys=True, ensure_ascii=True)
     os.replace(tmp, path)
